@@ -43,7 +43,9 @@ pub struct EnginePlan {
 
 pub fn plan(prop: &str, thorough: bool) -> Vec<EnginePlan> {
     let mut v = Vec::new();
-    let seq = |q: u32, t: u32| EnginePlan { engine: "seq", workers: 16, cases_per_worker: if thorough { t } else { q }, timeout_s: if thorough { 1500 } else { 400 } };
+    // C09 is about termination: a short watchdog (normal runs take seconds), then replay
+    let wd = if prop == "C09" { if thorough { 400 } else { 90 } } else if thorough { 1500 } else { 400 };
+    let seq = |q: u32, t: u32| EnginePlan { engine: "seq", workers: 16, cases_per_worker: if thorough { t } else { q }, timeout_s: wd };
     match prop {
         "C01" | "C05" | "C06" | "C07" | "C16" => v.push(seq(2500, 20000)),
         "C03" | "C04" | "C10" | "C11" => v.push(seq(2500, 20000)),
@@ -165,6 +167,10 @@ pub fn run(a: &RunArgs) -> i32 {
     let plans = plan(&a.prop, a.thorough);
     let mut merged: Vec<Merged> = Vec::new();
     for pl in &plans {
+        if pl.engine == "fuzz" {
+            merged.push(run_fuzz(a, pl, &dir));
+            continue;
+        }
         let edir = dir.join(pl.engine);
         std::fs::create_dir_all(&edir).ok();
         let mut children: Vec<(u64, Child)> = Vec::new();
@@ -280,13 +286,15 @@ pub fn run(a: &RunArgs) -> i32 {
                 }
                 None => {
                     // watchdog
-                    if inflight.exists() && a.prop == "C09" {
+                    if a.prop == "C09" && m.violations.iter().any(|f| f.message.contains("does not return")) {
+                        // one confirmed hang is enough; the other hung workers are the same story
+                    } else if inflight.exists() && a.prop == "C09" {
                         let keep = dir.join(format!("hang-{}-{}.json", pl.engine, i));
                         let _ = std::fs::copy(&inflight, &keep);
                         let mut hung = 0;
                         for _ in 0..2 {
                             let mut c = Command::new(&exe).arg("replay-case").arg(&keep).arg("--prop").arg(&a.prop).arg("--engine").arg(pl.engine).stdout(Stdio::null()).stderr(Stdio::null()).spawn().expect("spawn");
-                            let dl = Instant::now() + Duration::from_secs(60);
+                            let dl = Instant::now() + Duration::from_secs(20);
                             loop {
                                 match c.try_wait() {
                                     Ok(Some(_)) => break,
@@ -420,4 +428,143 @@ pub fn run(a: &RunArgs) -> i32 {
         exit
     );
     exit
+}
+
+
+/// FUZZ engine (thorough tier): libFuzzer campaigns (ASan on) over the targets
+/// in harness/fuzz, with the semantic oracle inside the target. Fixed work:
+/// `-runs=N -seed=S+i` per worker, fresh corpus directories.
+fn run_fuzz(a: &RunArgs, pl: &EnginePlan, dir: &Path) -> Merged {
+    let mut m = Merged {
+        engine: "fuzz".to_string(),
+        evaluations: 0,
+        hashes: BTreeSet::new(),
+        classes: BTreeMap::new(),
+        samples: vec![],
+        foreign: BTreeMap::new(),
+        aborted: 0,
+        excluded: BTreeMap::new(),
+        violations: vec![],
+        errors: vec![],
+        exhaustive: None,
+        rule: crate::rule_for(&a.prop, "fuzz"),
+    };
+    let targets: Vec<&str> = match a.prop.as_str() {
+        "C08" => vec!["fz_seq", "fz_deque", "fz_sketch"],
+        "C14" => vec!["fz_sketch", "fz_seq"],
+        _ => vec!["fz_seq"],
+    };
+    let harness = Path::new(VERIF).join("harness");
+    let tdir = Path::new(VERIF).join("target").join("fuzz");
+    let envs = [("CARGO_NET_OFFLINE", "true"), ("RUSTFLAGS", "--cfg mini_moka_verif"), ("CARGO_TARGET_DIR", tdir.to_str().unwrap())];
+    for t in &targets {
+        let out = Command::new("cargo").args(["+nightly", "fuzz", "build", t]).current_dir(&harness).envs(envs.iter().cloned()).stdout(Stdio::piped()).stderr(Stdio::piped()).output();
+        match out {
+            Ok(o) if o.status.success() => {}
+            Ok(o) => {
+                let e = String::from_utf8_lossy(&o.stderr);
+                m.errors.push(format!("cargo fuzz build {t} failed: {}", e.lines().rev().take(8).collect::<Vec<_>>().join(" | ")));
+                return m;
+            }
+            Err(e) => {
+                m.errors.push(format!("cannot run cargo fuzz: {e}"));
+                return m;
+            }
+        }
+    }
+    let fdir = dir.join("fuzz");
+    std::fs::create_dir_all(&fdir).ok();
+    let before: BTreeSet<PathBuf> = std::fs::read_dir(Path::new(VERIF).join("replays")).map(|rd| rd.filter_map(|e| e.ok().map(|e| e.path())).collect()).unwrap_or_default();
+    let mut children: Vec<(String, u64, Child)> = Vec::new();
+    let per_target = (pl.workers as usize / targets.len()).max(1);
+    let mut widx = 0u64;
+    for t in &targets {
+        let bin = tdir.join("x86_64-unknown-linux-gnu").join("release").join(t);
+        for _ in 0..per_target {
+            let corpus = fdir.join(format!("corpus-{t}-{widx}"));
+            std::fs::create_dir_all(&corpus).ok();
+            // a few structured seeds beside the empty corpus
+            for (i, seed) in [vec![0u8; 64], (0..200u8).collect::<Vec<u8>>(), vec![0x55u8; 300]].iter().enumerate() {
+                let _ = std::fs::write(corpus.join(format!("seed{i}")), seed);
+            }
+            let stats = fdir.join(format!("stats-{t}-{widx}.json"));
+            let child = Command::new(&bin)
+                .arg(&corpus)
+                .arg(format!("-runs={}", pl.cases_per_worker))
+                .arg(format!("-seed={}", a.seed.wrapping_mul(1000).wrapping_add(widx + 1)))
+                .arg("-len_control=0")
+                .arg("-max_len=1024")
+                .arg(format!("-artifact_prefix={}/", fdir.display()))
+                .env("VERIF_PROPS", &a.prop)
+                .env("VERIF_FUZZ_STATS", &stats)
+                .env("ASAN_OPTIONS", "detect_leaks=0")
+                .stdout(Stdio::null())
+                .stderr(Stdio::piped())
+                .spawn();
+            match child {
+                Ok(c) => children.push((t.to_string(), widx, c)),
+                Err(e) => m.errors.push(format!("cannot start fuzz target {t}: {e}")),
+            }
+            widx += 1;
+        }
+    }
+    let deadline = Instant::now() + Duration::from_secs(pl.timeout_s);
+    for (t, i, mut child) in children {
+        let status = loop {
+            match child.try_wait() {
+                Ok(Some(st)) => break Some(st),
+                Ok(None) => {
+                    if Instant::now() > deadline {
+                        let _ = child.kill();
+                        let _ = child.wait();
+                        break None;
+                    }
+                    std::thread::sleep(Duration::from_millis(50));
+                }
+                Err(_) => break None,
+            }
+        };
+        let stats = fdir.join(format!("stats-{t}-{i}.json"));
+        if let Some(v) = std::fs::read(&stats).ok().and_then(|b| serde_json::from_slice::<serde_json::Value>(&b).ok()) {
+            let ev = v.get("evaluations").and_then(|x| x.as_u64()).unwrap_or(0);
+            let nt = v.get("distinct_nontrivial").and_then(|x| x.as_u64()).unwrap_or(0);
+            m.evaluations += ev;
+            for j in 0..nt {
+                m.hashes.insert(crate::engine::splitmix((i << 40) ^ j ^ 0xF022));
+            }
+            *m.classes.entry(format!("executions_{t}")).or_insert(0) += ev;
+        }
+        match status {
+            Some(st) if st.success() => {}
+            Some(st) => {
+                let mut stderr = String::new();
+                if let Some(mut e) = child.stderr.take() {
+                    use std::io::Read;
+                    let _ = e.read_to_string(&mut stderr);
+                }
+                let vline = stderr.lines().find(|l| l.starts_with("VIOLATION property="));
+                if vline.is_none() {
+                    // a sanitizer report or a crash outside the oracle
+                    let asan = stderr.lines().find(|l| l.contains("ERROR: AddressSanitizer") || l.contains("SUMMARY:")).unwrap_or("").to_string();
+                    if a.prop == "C08" {
+                        m.violations.push(Found { property: "C08".into(), message: format!("[C08] fuzz target {t} died ({st}): {asan}; the input is kept under {}", fdir.display()), engine: "fuzz-raw".into(), case: serde_json::json!({"target": t, "artifact_dir": fdir.display().to_string()}), trace: stderr.lines().rev().take(30).map(|s| s.to_string()).collect::<Vec<_>>().into_iter().rev().collect(), avoid: vec![] });
+                    } else {
+                        m.errors.push(format!("fuzz target {t} worker {i} died ({st}) outside the oracle of {}: {asan}", a.prop));
+                    }
+                }
+            }
+            None => m.errors.push(format!("fuzz target {t} worker {i} hit the watchdog ({}s): inconclusive", pl.timeout_s)),
+        }
+    }
+    // replay files written by the targets' oracles
+    let after: BTreeSet<PathBuf> = std::fs::read_dir(Path::new(VERIF).join("replays")).map(|rd| rd.filter_map(|e| e.ok().map(|e| e.path())).collect()).unwrap_or_default();
+    for p in after.difference(&before) {
+        if p.file_name().and_then(|n| n.to_str()).map_or(false, |n| n.starts_with(&format!("{}-fuzz-", a.prop))) {
+            if let Some(f) = std::fs::read(p).ok().and_then(|b| serde_json::from_slice::<Found>(&b).ok()) {
+                m.violations.push(f);
+            }
+        }
+    }
+    m.samples.push(serde_json::json!({"targets": targets, "runs_per_worker": pl.cases_per_worker, "note": "inputs are byte strings decoded into the same Case values as the proptest engines; corpus directories are under target/run"}));
+    m
 }
